@@ -136,6 +136,44 @@ var c15Bases = map[string]string{
     - getppid
     - getuid
 `,
+	// one syscall listed twice with entries for other syscalls in between, and a three-condition list
+	"conditional-interleaved": `seccomp:
+  default_action: allow
+  syscalls:
+  - action: errno
+    names_with_args:
+    - name: getppid
+      arguments:
+      - argument: 0
+        operation: Equal
+        value: 1001
+    - name: getuid
+      arguments:
+      - argument: 1
+        operation: Equal
+        value: 7
+    - name: getgid
+      arguments:
+      - argument: 0
+        operation: GreaterThan
+        value: 0x100000000
+      - argument: 1
+        operation: Equal
+        value: 5
+      - argument: 2
+        operation: BitsSet
+        value: 0x10
+    - name: getppid
+      arguments:
+      - argument: 0
+        operation: Equal
+        value: 1002
+    - name: getuid
+      arguments:
+      - argument: 2
+        operation: NotEqual
+        value: 0
+`,
 	"kill": `seccomp:
   default_action: allow
   syscalls:
@@ -207,6 +245,9 @@ var c15Bases = map[string]string{
     - getpgrp
 `,
 }
+
+// names that the tables of other architectures have and the x86_64 table does not
+var c15ForeignNames = []string{"socketcall", "_llseek", "mmap2", "fstat64", "arm_fadvise64_64", "sigreturn", "waitpid", "ugetrlimit"}
 
 type c15Case struct {
 	Label     string   `json:"label"`
@@ -340,6 +381,15 @@ func checkC15(tier, replay string) int {
 					idx := strings.Index(text, ln)
 					bad := strings.TrimRight(ln, "\n") + "_x\n"
 					def(fmt.Sprintf("unknown-syscall-at-%d", occ), text[:idx]+bad+text[idx+len(ln):])
+					// a name that IS a system call - of another architecture's table, not of this one
+					for k := 0; k < 2; k++ {
+						foreign := c15ForeignNames[(2*occ+k)%len(c15ForeignNames)]
+						if _, known := refsem.ArchByName("x86_64").Number(foreign); known {
+							continue
+						}
+						cut := strings.LastIndex(strings.TrimRight(ln, "\n"), " ") + 1
+						def(fmt.Sprintf("other-architectures-syscall-at-%d/%s", occ, foreign), text[:idx]+ln[:cut]+foreign+"\n"+text[idx+len(ln):])
+					}
 					occ++
 				}
 			}
@@ -587,7 +637,7 @@ func checkC15(tier, replay string) int {
 	ctx.Cov["runs_in_which_the_target_started"] = ranTarget
 	ctx.Cov["runs_that_must_be_refused"] = refused
 	ctx.Cov["probe_events_observed_by_the_target"] = probes
-	ctx.Cov["rule"] = "the built cmd/sandbox binary is run with a probe target (a separate program that first appends a marker line, then issues probe syscalls for every partition cell of the policy) on: 10 base policy files (one spelling all eight operations and the actions in non-canonical letter case, one whose first group ends with a conditional entry for a syscall the second group names unconditionally) (incl. two under which execve is not allowed: no target can be started) whole (root / uid 65534 / with -no-new-privs=false / non-existent target / nested inside an outer sandbox whose policy answers errno to seccomp(2), so that the kernel refuses the filter), every line prefix and every byte prefix inside the first and last rule (thorough: every byte prefix), 13 defect kinds per base plus an unknown name at every position where a syscall name stands, JSON renderings with operands that need all 64 bits (unknown action/default/syscall/operation, wrong key, no syscalls, non-YAML, tab indentation, empty, argument 6 / -1, non-numeric value, duplicate name), a policy compiling to > 4096 instructions, ten nested sandbox commands with a 4.0k-instruction policy (the kernel refuses one of them with ENOMEM), a policy whose first group needs long jumps (70 conditional entries) followed by a second group, files of 4 KiB to 1 MiB in which a comment block pushes the last group to byte offset L-1, L, L+1 for L in {4096, ..., 65536, 131072, 1 MiB}, a missing file (also a relative and the default name that exist next to the command's executable and in HOME, but not in the working directory) and a directory; the same bytes are loaded by the harness through ucfg: if that fails, the policy is invalid or the kernel must refuse, the run must exit non-zero with no marker; otherwise the marker exists and the target's observations equal the reference decisions of the policy the file denotes"
+	ctx.Cov["rule"] = "the built cmd/sandbox binary is run with a probe target (a separate program that first appends a marker line, then issues probe syscalls for every partition cell of the policy) on: 11 base policy files (one listing a syscall twice with entries for other syscalls in between and a three-condition list, one spelling all eight operations and the actions in non-canonical letter case, one whose first group ends with a conditional entry for a syscall the second group names unconditionally) (incl. two under which execve is not allowed: no target can be started) whole (root / uid 65534 / with -no-new-privs=false / non-existent target / nested inside an outer sandbox whose policy answers errno to seccomp(2), so that the kernel refuses the filter), every line prefix and every byte prefix inside the first and last rule (thorough: every byte prefix), 13 defect kinds per base plus an unknown name, and two names that only other architectures' tables have, at every position where a syscall name stands, JSON renderings with operands that need all 64 bits (unknown action/default/syscall/operation, wrong key, no syscalls, non-YAML, tab indentation, empty, argument 6 / -1, non-numeric value, duplicate name), a policy compiling to > 4096 instructions, ten nested sandbox commands with a 4.0k-instruction policy (the kernel refuses one of them with ENOMEM), a policy whose first group needs long jumps (70 conditional entries) followed by a second group, files of 4 KiB to 1 MiB in which a comment block pushes the last group to byte offset L-1, L, L+1 for L in {4096, ..., 65536, 131072, 1 MiB}, a missing file (also a relative and the default name that exist next to the command's executable and in HOME, but not in the working directory) and a directory; the same bytes are loaded by the harness through ucfg: if that fails, the policy is invalid or the kernel must refuse, the run must exit non-zero with no marker; otherwise the marker exists and the target's observations equal the reference decisions of the policy the file denotes"
 	ctx.Assumptions = []string{"a truncated file that still parses is a different valid policy and is judged as such", "probe syscalls ignore arguments", "fault points before exec are realised through inputs (file defects, kernel refusals), not by interrupting the sandbox process"}
 	if replay != "" {
 		return finishReplay(ctx)
